@@ -383,6 +383,35 @@ Section Cmp.
     intros Hd. apply (Permutation_in _ (Permutation_sym Hp)) in Hd. apply mem_In in Hd. congruence.
   Qed.
 
+  Definition top_group_spec (domax : bool) (k : Z) (x : bytes) (G O : list record) : Prop :=
+    exists rest, Permutation G (O ++ rest)
+      /\ Z.of_nat (List.length O) = Z.min k (Z.of_nat (List.length G))
+      /\ ForallOrdPairs (fun r s => top_cmp infer domax x s r <= 0) O
+      /\ (forall r o, In r rest -> In o O -> top_cmp infer domax x r o <= 0).
+
+  Lemma check_top_group_sound domax k x G O : check_top_group infer domax k x G O = true -> top_group_spec domax k x G O.
+  Proof.
+    unfold check_top_group. destruct (msub O G) as [rest|] eqn:E; [|discriminate].
+    rewrite !andb_true_iff. intros [[H1 H2] H3]. exists rest. split; [now apply C11.CheckerProofs.msub_sound|].
+    split; [now apply Z.eqb_eq|]. split.
+    - apply ordered_by_spec in H2. eapply FOP_impl; [|exact H2]. cbn beta. intros r s H. apply Z.ltb_ge. exact H.
+    - intros r o Hr Ho. rewrite forallb_forall in H3. specialize (H3 r Hr). rewrite forallb_forall in H3.
+      specialize (H3 o Ho). rewrite negb_true_iff in H3. now apply Z.ltb_ge.
+  Qed.
+
+  (* what acceptance of a `top -a` output means *)
+  Lemma check_top_sound domax k x fs inp out : check_top infer domax k x fs inp out = true ->
+    let keyf := top_keyf x fs in
+    out = flat_map (fun g => group_of keyf g out) (dkeys keyf inp)
+    /\ (forall r, In r out -> has_key keyf r = true)
+    /\ (forall g, In g (dkeys keyf inp) -> top_group_spec domax k x (group_of keyf g inp) (group_of keyf g out)).
+  Proof.
+    unfold check_top. cbn zeta. rewrite !andb_true_iff. intros [[H1 H2] H3]. split; [|split].
+    - destruct (records_eqb_spec out (flat_map (fun g => group_of (top_keyf x fs) g out) (dkeys (top_keyf x fs) inp))); congruence.
+    - now apply forallb_forall.
+    - intros g Hg. rewrite forallb_forall in H3. apply check_top_group_sound. auto.
+  Qed.
+
   Lemma check_array_sort_spec name f inp out :
     check_array_sort infer nat_less name f inp out = true
     <-> Permutation inp out
